@@ -1074,6 +1074,13 @@ func (bf *Bitfield) Decode(d *Decoder) error {
 	}
 	cLog(Yellow, "BitField: %x", bytes)
 
+	// the bits beyond the last core are padding and must be zero
+	for i := CoresCount; i < 8*len(bytes); i++ {
+		if (bytes[i/8]>>(i%8))&1 != 0 {
+			return errors.New("non-zero padding bits in bitfield")
+		}
+	}
+
 	bitfield, err := MakeBitfieldFromByteSlice(bytes)
 	if err != nil {
 		return err
